@@ -119,8 +119,9 @@ pub fn check_read(case: &ReadCase) -> CaseResult {
                     },
                     RStep::ReadToEnd => {
                         what = "read_to_end";
-                        let mut b1 = vec![];
-                        let mut b2 = vec![];
+                        // (into buffers that already hold something: the count is what was appended)
+                        let mut b1 = vec![7u8; i % 4];
+                        let mut b2 = vec![7u8; i % 4];
                         (cur.read_to_end(&mut b1).map(|k| (k as u64, b1)).map_err(|_| ()), h.read_to_end(&mut b2).map(|k| (k as u64, b2)).map_err(|_| ()))
                     },
                     RStep::Pos => {
